@@ -187,6 +187,7 @@ def dangling_variants(sp):
     return out
 
 
+@common.job
 def job_dangling(job):
     name, sp = job
     from maltoolbox.language import LanguageGraph
@@ -215,6 +216,7 @@ def base_languages():
     for i in (5, 40, 90, 140, 168):
         out[f'INH:{i}'] = families.inh_lang(shapes[i % len(shapes)])
     from ..refgraph import gops_lang, gops2_lang
+    out.update(families.fr_variants())
     out['GOPS'] = gops_lang()
     out['GOPS2'] = gops2_lang()
     out['SEM:base'] = families.sem_lang([langs.step('s0', 'or', reaches=[langs.COL(langs.UNI(langs.F('rights'), langs.V('vdown')), langs.S('t'))]),
@@ -222,6 +224,7 @@ def base_languages():
     return out
 
 
+@common.job
 def job_struct(job):
     kind, arg = job
     stats, viols = {}, []
@@ -243,6 +246,7 @@ def job_struct(job):
     return stats, [v.to_json() for v in vs[:20]]
 
 
+@common.job
 def job_edges(job):
     """every attack-graph edge is predicted by a language-graph link"""
     plan, ci, lo, hi = job
